@@ -23,9 +23,18 @@ def main():
         logging.root.addHandler(logging.NullHandler())
         mod = importlib.import_module(f"vf.checks.{prop.lower()}")
         if args.replay:
-            status = mod.replay(args.replay)
+            import json
+            with open(args.replay) as fh:
+                case = json.load(fh).get("case", {})
+            if isinstance(case, dict) and case.get("crash"):
+                status = common.replay_crash(case)
+            else:
+                status = mod.replay(args.replay)
         else:
             status = mod.run(tier)
+    except common.ImplementationCrash as e:
+        level = {"C06": "model_checking", "C12": "fault_enumeration"}.get(prop, "exploration")
+        status = common.report_crash(prop, tier, level, e)
     except common.HarnessError as e:
         print(f"[verif] HARNESS ERROR in {prop}: {e}", file=sys.stderr)
         status = 2
